@@ -63,6 +63,9 @@ type H struct {
 	fenceLen      int   // len(shadow) when NewTerm answered
 	terms         map[int64]*termInfo
 	walBroken     bool
+	snapFailed    bool // a snapshot install failed after its first chunk and no NewTerm has stored the term since
+	termLost      bool // ... and the node was restarted in that state
+	kvf0          *capKvFactory
 	reported      map[int64][2]int64 // head reported in the NewTerm response, by term
 	ackedIn       map[int64]int64    // highest offset acknowledged on a stream of the term
 	hasReported   map[int64]bool
@@ -83,8 +86,10 @@ func newH(o *hx.Out) *H {
 	hx.Must(err)
 	h := &H{o: o, dir: dir, streams: map[int]*streamH{}, terms: map[int64]*termInfo{}, viol: map[string]string{},
 		ackedIn: map[int64]int64{}, reported: map[int64][2]int64{}, hasReported: map[int64]bool{}, writeRes: map[int]bool{}, refused: map[int]string{}, fencedTerm: -1, adv: 0}
-	h.kvf, err = kvsafe.New(&kv.FactoryOptions{DataDir: dir + "/db", CacheSizeMB: 1})
+	inner, err := kvsafe.New(&kv.FactoryOptions{DataDir: dir + "/db", CacheSizeMB: 1})
 	hx.Must(err)
+	h.kvf0 = &capKvFactory{Factory: inner}
+	h.kvf = h.kvf0
 	h.realWf = wal.NewWalFactory(&wal.FactoryOptions{BaseWalDir: dir + "/wal", SegmentSize: 256 * 1024, Retention: time.Hour, SyncData: true})
 	h.wf = &gateFactory{inner: h.realWf, ev: h}
 	h.openDirector()
@@ -213,6 +218,8 @@ func errKind(err error) string {
 		return "err:bounds"
 	case strings.Contains(s, "entry not found"):
 		return "err:notfound"
+	case strings.Contains(s, "snapshot stream reset by harness"):
+		return "err:stream"
 	}
 	return "err:other(" + strings.ReplaceAll(s, " ", "_") + ")"
 }
@@ -385,6 +392,17 @@ func (h *H) newTermRecord(t int64, resp *proto.NewTermResponse, err error) {
 			h.violate("newterm:head-not-end-of-log", fmt.Sprintf("NewTerm(%d) reported head (%d,%d) while the last entry of the log is (%d,%d)",
 				t, hd.Term, hd.Offset, last.term, last.off))
 		}
+		if t < h.fencedTerm {
+			// "after a node has answered a new-term request for term T it never again accepts ... a term lower than T"
+			if h.termLost {
+				h.violate("newterm:older-term-accepted-after-failed-snapshot-and-restart", fmt.Sprintf(
+					"NewTerm(%d) answered OK after NewTerm(%d): a snapshot install failed after its first chunk (DB directory emptied, stored term gone) and the node restarted", t, h.fencedTerm))
+			} else {
+				h.violate("newterm:older-term-accepted-after-fence", fmt.Sprintf("NewTerm(%d) answered OK after NewTerm(%d) had been answered", t, h.fencedTerm))
+			}
+			h.fencedTerm = t // the node has forgotten the fence: the consequences are not reported again
+		}
+		h.snapFailed, h.termLost = false, false
 		if t > h.fencedTerm {
 			h.fencedTerm = t
 		}
@@ -734,6 +752,9 @@ func (h *H) killStreams(mode int) {
 
 func (h *H) doCrashRestart(choice int) {
 	h.killStreams(relCancelNoSync)
+	if h.snapFailed {
+		h.termLost = true
+	}
 	synced := int64(-1)
 	if h.gw != nil && (h.follower() != nil || h.leader() != nil) {
 		synced = h.gw.inner.LastOffset()
